@@ -20,7 +20,7 @@ ASSUMPTIONS = ["failpoints raise a RuntimeError subclass at the entry of a layer
                "sites at or below the transport cipher in the byte stream (network, segments in both directions, noise on receive) lose bytes of an ordered encrypted stream when they fail: "
                "for them same-connection follow-ups are only required not to block, and everything is required to work after a reconnect",
                "after-failure follow-ups run in helper threads so that a wedged stack is observed as a blocked thread instead of hanging the check"]
-REQUIRED = ["cases", "failpoints_reached", "natural_failures", "locks_censused", "followups_ok", "reconnect_followups_ok",
+REQUIRED = ["real_write_error_cases", "real_write_error_ok", "real_write_error:socket", "real_write_error:asyncore", "cases", "failpoints_reached", "natural_failures", "locks_censused", "followups_ok", "reconnect_followups_ok",
             "sites", "other_thread_followups"]
 TIMEOUT = {"quick": 600, "thorough": 7200}
 
@@ -402,16 +402,146 @@ def all_cases(tier):
     return cases
 
 
+# ---------------------------------------------------------------------------------------------
+# a socket write that fails (connection reset) under the library's real dispatchers
+class SockProxy(object):
+    """The dispatcher's socket with one injected failure: the next send() raises ECONNRESET (what a write on a connection the
+    peer has reset does)."""
+
+    def __init__(self, real):
+        self.__dict__["_real"] = real
+        self.__dict__["fail_sends"] = 1
+        self.__dict__["failed"] = 0
+
+    def send(self, data, *a):
+        if self.fail_sends > 0:
+            self.__dict__["fail_sends"] -= 1
+            self.__dict__["failed"] += 1
+            import errno
+            raise ConnectionResetError(errno.ECONNRESET, "Connection reset by peer")
+        return self._real.send(data, *a)
+
+    def sendall(self, data, *a):
+        return self.send(data, *a)
+
+    def __getattr__(self, n):
+        return getattr(self._real, n)
+
+    def __setattr__(self, n, v):
+        setattr(self._real, n, v)
+
+
+def real_write_error_case(acc, seed, tag, dispatcher_name):
+    from vf import realnet, probes
+    from yowsup.layers.network import YowNetworkLayer
+    from yowsup.layers.auth import YowAuthenticationProtocolLayer
+    from yowsup.layers.protocol_iq.protocolentities import PingIqProtocolEntity
+    disp = YowNetworkLayer.DISPATCHER_SOCKET if dispatcher_name == "socket" else YowNetworkLayer.DISPATCHER_ASYNCORE
+    srv = realnet.LoopServer()
+    srv.start()
+    c = realnet.RealClient("c12real_%s" % tag.replace("/", "_"), srv.port, disp)
+    w = {"tag": tag, "dispatcher": dispatcher_name, "kind": "write-error"}
+    A, D = YowAuthenticationProtocolLayer.EVENT_AUTHED, YowNetworkLayer.EVENT_STATE_DISCONNECTED
+    acc.count("real_write_error_cases")
+    acc.count("real_write_error:" + dispatcher_name)
+    acc.case(["real-write-error", dispatcher_name, tag], nontrivial=True)
+
+    def bad(key, what, **extra):
+        acc.violation("real-write-error:%s:%s" % (key, dispatcher_name), "%s dispatcher, a socket write fails with ECONNRESET: %s" % (dispatcher_name, what), dict(w, **extra))
+        return False
+
+    def send_in_thread(name):
+        err = []
+
+        def body():
+            try:
+                c.app.toLower(PingIqProtocolEntity())
+            except Exception as e:  # noqa
+                err.append((type(e).__name__, str(e)[:120]))
+        t = threading.Thread(target=body, name=name)
+        t.daemon = True
+        t.start()
+        t.join(6)
+        return t, err
+    try:
+        c.start_loop()
+        c.connect_async()
+        if not c.wait(lambda: c.events(A) >= 1, 15):
+            acc.inconc("%s: login over loopback did not complete" % tag)
+            return False
+        d = c.net._dispatcher
+        proxy = SockProxy(d.socket)
+        d.socket = proxy
+        t1, e1 = send_in_thread("verif-writer-1")
+        if proxy.failed == 0:
+            acc.inconc("%s: the injected write failure was not reached" % tag)
+            return False
+        if t1.is_alive():
+            st = probes.thread_states([t1]).get(t1.name, [])
+            return bad("send-blocks", "the send that hit the failing write never returned (blocked in %s)" % [f[1] for f in st[:4]], stack=[list(f[:3]) for f in st[:10]])
+        t2, e2 = send_in_thread("verif-writer-2")
+        if t2.is_alive():
+            st = probes.thread_states([t2]).get(t2.name, [])
+            return bad("followup-send-blocks", "a later send from another thread never returned (blocked in %s)" % [f[1] for f in st[:4]], stack=[list(f[:3]) for f in st[:10]])
+        if not c.wait(lambda: c.events(D) >= 1, 6):
+            return bad("no-disconnected", "the failed connection was never announced as down (status %s)" % c.net.getStatus())
+        held = probes.held_locks(c.stack)
+        sl = getattr(d, "_send_lock", None)
+        if sl is not None and sl.locked():
+            held.append("dispatcher._send_lock")
+        if held:
+            time.sleep(0.2)
+            held2 = probes.held_locks(c.stack) + (["dispatcher._send_lock"] if sl is not None and sl.locked() else [])
+            if set(held) & set(held2):
+                return bad("lock-held", "locks still held after the failure: %s" % sorted(set(held) & set(held2)))
+        # the stack stays usable: reconnect and send
+        c.wait(lambda: c.probe_top.event_names().count(D) >= 1, 5)
+        t0 = time.time()
+        while time.time() - t0 < 3 and any(t.is_alive() for t in c.net_threads):
+            time.sleep(0.01)
+        c.connect_async()
+        if not c.wait(lambda: c.events(A) >= 2, 15):
+            return bad("no-relogin", "after the failure a new connection does not log in (server states %s)" % [x.srv.state for x in srv.conns])
+        n0 = len(srv.conns[-1].stanzas)
+        t3, e3 = send_in_thread("verif-writer-3")
+        if t3.is_alive() or not c.wait(lambda: len(srv.conns[-1].stanzas) > n0, 6):
+            return bad("followup-after-reconnect", "a send after the reconnect did not reach the server")
+        acc.count("real_write_error_ok")
+        return True
+    finally:
+        # (in a helper thread: on a tree that leaks the dispatcher's lock the clean-up itself would block forever)
+        def cleanup():
+            try:
+                c.app.disconnect()
+            except Exception:
+                pass
+        ct = threading.Thread(target=cleanup, name="verif-cleanup")
+        ct.daemon = True
+        ct.start()
+        ct.join(3)
+        c.stop_loop()
+        time.sleep(0.05)
+        srv.stop()
+
+
 def shards(tier, seed, nworkers):
     q = tier == "quick"
     cases = all_cases(tier)
     nsh = 6 if q else nworkers
-    return [{"kind": "cases", "cases": cases[i::nsh], "shard": i} for i in range(nsh)]
+    specs = [{"kind": "cases", "cases": cases[i::nsh], "shard": i} for i in range(nsh)]
+    for dname in ("socket", "asyncore"):
+        specs.append({"kind": "real-write-error", "dispatcher": dname, "n": 3 if q else 40})
+    return specs
 
 
 def run(spec, acc):
     from vf import env
     env.shim_thirdparty()
+    if spec["kind"] == "real-write-error":
+        for i in range(spec["n"]):
+            real_write_error_case(acc, spec["seed"], "rw/%s/%d" % (spec["dispatcher"], i), spec["dispatcher"])
+        acc.sample({"real_write_error": "ECONNRESET injected into the dispatcher's next socket write over loopback", "dispatcher": spec["dispatcher"]})
+        return
     for i, d in enumerate(spec["cases"]):
         tag = "case/%d/%d" % (spec["shard"], i)
         run_case(acc, spec["seed"], tag, d)
